@@ -137,6 +137,7 @@ DEFAULT_CFG: Dict[str, Any] = {
     "string_tier": "A",
     "numeric_fallback": True,
     "float": True,
+    "macro_string": False,  # string macros: parser 1 keeps the quotes of the definition, parser 2 strips them (C04 finding)
 }
 
 
@@ -348,7 +349,7 @@ class _Builder:
             )
         if d.chance(c["p_macro"]):
             name = f"MACRO_{len(self.macros)}"
-            typ = d.pick(("int", "hex", "string"))
+            typ = d.pick(("int", "hex", "string") if c.get("macro_string") else ("int", "hex"))
             lit = gen_literal(d, typ, dict(self.c, string_tier="A"))
             self.macros[name] = (typ, lit[2])
             # macros must be defined before use in file order: keep them at the top of the root file
@@ -583,6 +584,9 @@ class _Builder:
             else:
                 self.add_symbol()
         self._prune_empty(self.entries)
+        # a macro must be defined before its first use in file order: keep the definitions at the top of the root file
+        macros = [e for e in self.entries if e["k"] == "macro"]
+        self.entries[:] = list(reversed(macros)) + [e for e in self.entries if e["k"] != "macro"]
         return {
             "mainmenu": "Generated",
             "entries": self.entries,
@@ -686,3 +690,47 @@ def tree_and_assignments(draw, c: Optional[dict] = None, lo: int = 1, hi: int = 
     d = D(draw)
     t = _Builder(d, c).build()
     return {"tree": t, "assign": gen_assignments(d, t, c, lo, hi)}
+
+
+# ----------------------------------------------------------------------------------------------------------------
+# rename files (sdkconfig.rename)
+# ----------------------------------------------------------------------------------------------------------------
+
+
+def gen_renames(d: D, tree: dict, lo: int = 1, hi: int = 5, dup_pct: int = 15, undefined_pct: int = 8, lower_pct: int = 8,
+                invert_nonbool_pct: int = 0) -> List[List[Any]]:
+    """-> [[old, new, inverted] ...] in file order.  Several aliases per option, inverted and plain mixed in any
+    order, duplicates of an old name (the last mapping wins), lower-case old names, mappings to undefined options."""
+    names = tree["order"]
+    out: List[List[Any]] = []
+    olds: List[str] = []
+    for i in range(d.int(lo, hi)):
+        if olds and d.chance(dup_pct):
+            old = d.pick(olds)
+        else:
+            old = f"VK_OLD_{i}" if not d.chance(lower_pct) else f"vk_old_{i}"
+            olds.append(old)
+        if d.chance(undefined_pct):
+            new = "VK_NOT_DEFINED"
+            inv = d.chance(30)
+        else:
+            new = d.pick(names)
+            typ = tree["types"][new]
+            inv = d.chance(40) if typ == "bool" else d.chance(invert_nonbool_pct)
+        out.append([old, new, bool(inv)])
+    return out
+
+
+def render_renames(renames, comment: bool = True) -> str:
+    lines = ["# generated rename file", ""] if comment else []
+    for old, new, inv in renames:
+        lines.append(f"CONFIG_{old}    {'!' if inv else ''}CONFIG_{new}")
+    return "\n".join(lines) + "\n"
+
+
+def effective_renames(renames) -> Dict[str, Tuple[str, bool]]:
+    """old -> (new, inverted) after 'the last mapping wins'."""
+    eff: Dict[str, Tuple[str, bool]] = {}
+    for old, new, inv in renames:
+        eff[old] = (new, bool(inv))
+    return eff
